@@ -17,7 +17,7 @@ func init() {
 	core.Register(&core.Check{
 		ID: "C17", Level: "other", Title: "Contract storage is confined and its keys are unambiguous",
 		Explain: "(1) Confinement: the only callers of CacheDB.put/get/delete pass the constant ST_STORAGE, NewIterator prefixes ST_STORAGE, and (with C15) nothing reachable from a native handler writes the overlay or the state store directly. (2) Key algebra over every storage access reachable (static calls, depth 6, parameter slots substituted at call sites) from the registered handlers and the router methods: each key is abstracted to contract‖atoms with atoms Lit(bytes) | Fix(n) | Var; injectivity: no shape has two unbounded atoms (two parameter tuples could give one key); disjointness: two shapes of the same contract that are not the same record kind (do not unify) must denote disjoint byte languages (decided exactly by a product construction over literal bytes / any-byte / any-string), except shapes of different router packages that both carry the 8-byte chain id right after the leading literal (assumption: one router per chain id); pairing: every Get/Delete shape unifies with some Put shape of the same contract (reading or deleting a never-written key is a contradiction). NOT decided: collisions that depend on value coincidences inside Var atoms of one record kind (same kind by definition).",
-		Run: runC17,
+		Run:     runC17,
 	})
 }
 
@@ -88,6 +88,17 @@ func runC17(c *core.Ctx) {
 							}
 						}
 					}
+				}
+			}
+		}
+		// or built by the package's key builder: makePrefixedKey(dst, ST_STORAGE, key)
+		for _, ci := range ir.Calls(f, func(ci ssa.CallInstruction) bool {
+			h := ci.Common().StaticCallee()
+			return h != nil && h.Name() == "makePrefixedKey"
+		}) {
+			if a := ci.Common().Args; len(a) == 3 {
+				if k, isK := ir.Strip(a[1]).(*ssa.Const); isK && k.Value != nil && k.Value.ExactString() == stStorage.ExactString() {
+					ok = true
 				}
 			}
 		}
